@@ -267,6 +267,19 @@ def check_functor(case):
     eq(F(empty), type(total)([], Fd.dom, Fd.cod), "empty-sum")
     # bubbles
     eq(F(d.bubble()), Fd.bubble(), "bubble")
+    # bubbles declared with other types than their inside (the ends of e,
+    # whatever their images are: longer, shorter, empty)
+    if cls != "cat":
+        for kw in ({"dom": e.dom}, {"cod": e.cod},
+                   {"dom": e.cod, "cod": e.dom}):
+            retyped = d.bubble(**kw)
+            image = F(retyped)
+            want = Fd.bubble(**{k: F(t) for k, t in kw.items()})
+            require(specs.tkey(image.dom) == specs.tkey(F(retyped.dom))
+                    and specs.tkey(image.cod) == specs.tkey(F(retyped.cod)),
+                    "C04:dom-cod", lambda: "bubble {} -> {}: image {} -> {}"
+                    .format(retyped.dom, retyped.cod, image.dom, image.cod))
+            eq(image, want, "bubble-retyped")
     if cls == "rigid":
         for t in (d.dom, d.cod):
             eq_ty(F(t.l), F(t).l, "left-adjoint")
